@@ -210,6 +210,18 @@ def _boot_write_once(plat):
                 return True
             n = p
         return False
+    def under_falsy_test(n):
+        while n in parents:
+            p = parents[n]
+            if isinstance(p, ast.If) and n in p.body and isinstance(p.test, ast.UnaryOp) \
+                    and isinstance(p.test.op, ast.Not) and extract.dotted(p.test.operand) == "BOOT_TIME":
+                return True
+            n = p
+        return False
+    if any(under_falsy_test(w) for w in writes):
+        # `if not BOOT_TIME:` also rewrites a cached 0.0 — same thing under the btime != 0 hypothesis,
+        # but not the shape the model's flag describes: leave the fact to the baseline + correspondence
+        raise NotRecognised("BOOT_TIME is written under `if not BOOT_TIME`")
     return all(under_is_none(w) for w in writes)
 
 
@@ -222,6 +234,24 @@ def _create_uses_cache(plat):
     if any(extract.dotted(n) == "boot_time()" for n in ast.walk(fn) if isinstance(n, ast.Call)):
         return False
     raise NotRecognised("create_time(): boot time expression not recognised")
+
+
+def _neg_rejected_c(snap, init):
+    """second line of defence: `_init` calls cext.check_pid_range(pid) before building the platform
+    object, and the C function raises ValueError for pid < 0"""
+    import re
+    fn = _find_method(init, "Process", "_init")
+    calls = [n.lineno for n in ast.walk(fn) if isinstance(n, ast.Call) and extract.dotted(n.func).endswith("check_pid_range")]
+    plat_obj = [n.lineno for n in ast.walk(fn) if isinstance(n, ast.Call) and extract.dotted(n.func) == "_psplatform.Process"]
+    if not plat_obj:
+        raise NotRecognised("_init: _psplatform.Process(pid) not found")
+    src = snap.source("_psutil_common.c")
+    m = re.search(r"psutil_check_pid_range\s*\([^)]*\)\s*\{(.*?)\n\}", src, re.S)
+    if not m:
+        raise NotRecognised("psutil_check_pid_range not found in _psutil_common.c")
+    body = m.group(1)
+    c_rejects = bool(re.search(r"if\s*\(\s*pid\s*<\s*0\s*\)\s*\{[^}]*PyExc_ValueError[^}]*return\s+NULL", body, re.S))
+    return bool(calls) and min(calls) < min(plat_obj) and c_rejects
 
 
 def _clock_ticks(plat):
@@ -274,10 +304,12 @@ def all_facts(snap, F):
               lambda: extract.lean_bool(_refusal_before(_find_method(init, "Process", "_send_signal"),
                                                         lambda t: _cmp_is(t, ("pid", "self.pid"), ast.Eq, 0), "ValueError", "os.kill")),
               "_send_signal raises ValueError for pid == 0 before os.kill")
-    F.try_add("negRejected", "Bool",
+    F.try_add("negRejectedPy", "Bool",
               lambda: extract.lean_bool(_refusal_before(_find_method(init, "Process", "_init"),
                                                         lambda t: _cmp_is(t, ("pid",), ast.Lt, 0), "ValueError", "_psplatform.Process")),
               "Process._init raises ValueError for pid < 0 before anything else")
+    F.try_add("negRejectedC", "Bool", lambda: extract.lean_bool(_neg_rejected_c(snap, init)),
+              "Process._init calls cext.check_pid_range(pid) first, whose C code raises ValueError for pid < 0")
     F.try_add("rlimitPid0Refused", "Bool",
               lambda: extract.lean_bool(_refusal_before(_find_method(plat, "Process", "rlimit"),
                                                         lambda t: _cmp_is(t, ("self.pid",), ast.Eq, 0), "ValueError", "resource.prlimit")),
@@ -598,7 +630,20 @@ def run_histories(ctx, impl, hists, driver_file=None):
     return res, len(lines)
 
 
-def first_problem(result, prop):
+def validation_drift(op, im, ie, mo, me, sp):
+    """A setter on a LIVE object where one side rejects the values (ValueError, nothing delivered) and
+    the other delivers exactly what was asked: which values a platform setter accepts is C18's
+    subject, not C01's — both behaviours satisfy C01 and leave the identity state untouched."""
+    if op["op"] != "setter" or not sp.get("listed"):
+        return False
+    rej = {"kind": "exc", "exc": "ValueError"}
+    for (o1, e1), (o2, e2) in (((im, ie), (mo, me)), ((mo, me), (im, ie))):
+        if o1 == rej and not e1 and o2 == {"kind": "unit"} and len(e2) == 1:
+            return True
+    return False
+
+
+def first_problem(result, prop, drift=None):
     """('spec'|'model', step index or None, impl, model, spec, note) for the first disagreement, else None"""
     sticky = {}
     for n, (o, im, ie, mo, me, sp) in enumerate(result["rows"]):
@@ -610,6 +655,10 @@ def first_problem(result, prop):
         if why:
             return ("spec", n, {"out": im, "eff": ie}, {"out": mo, "eff": me}, sp, why)
         if not same_out(im, mo) or ie != me:
+            if validation_drift(o, im, ie, mo, me, sp):
+                if drift is not None:
+                    drift.append(n)
+                continue
             return ("model", n, {"out": im, "eff": ie}, {"out": mo, "eff": me}, sp, "implementation differs from the Lean model")
     ip, mp, sp = result["pairs"]
     n = len(ip["hash"])
@@ -942,7 +991,7 @@ def correspond_for(ctx, res, prop, driver_file, n_quick, n_thorough):
         for i in range(n):
             hists.append(gen_history(ctx.rng, FAMILIES[i % len(FAMILIES)], impl.clk))
         n_rand = len(hists)
-        maxlen = 4 if ctx.tier == "quick" else 5
+        maxlen = 5 if ctx.tier == "quick" else 6
         hists.extend(exhaustive_histories(maxlen))
         total_lines = 0
         CH = 3000
@@ -965,7 +1014,10 @@ def correspond_for(ctx, res, prop, driver_file, n_quick, n_thorough):
                     sample = {"family": fam, "btime": h["btime"], "ops": h["ops"],
                               "impl": [[x[1], x[2]] for x in r["rows"]]}
                 res.case((h["btime"], h["ops"]), nontrivial=bool(feats & NONTRIVIAL), sample=sample)
-                pr = first_problem(r, prop if h.get("hyp", True) else "none")
+                drift = []
+                pr = first_problem(r, prop if h.get("hyp", True) else "none", drift)
+                if drift:
+                    res.count("drift:setter_validation", len(drift))
                 if pr:
                     kind, nstep, im, mo, sp, why = pr
                     ops = h["ops"] if nstep is None else h["ops"][:nstep + 1]
